@@ -79,12 +79,13 @@ func main() {
 			e.Gen(r.Fork(), *n, emit)
 		}
 		if e.Monitor != nil && *mon > 0 {
-			cnt := 0
+			cnt := map[string]int{} // per (property, key)
 			e.Monitor(r.Fork(), *mon, func(v lc.Violation) {
-				if cnt < 20 {
+				k := v.Property + "|" + v.Key
+				if cnt[k] < 8 {
 					vs.Put(v)
 				}
-				cnt++
+				cnt[k]++
 			})
 		}
 	}
